@@ -388,6 +388,9 @@ def run(ctx):
     # the status a subscriber converges on is computed from the mempool view: its exactness rules are necessary here too
     from . import c08 as _c08
     _c08.run(ctx)
+    # the status is the hash of the *whole* confirmed history: a history cut off at the limit must be refused, not hashed
+    from . import c17 as _c17
+    ctx.rule('C17.LIMIT', lambda: _c17.rule_limit(ctx), 6)
     ctx.rule('C07.FANOUT', lambda: rule_fanout(ctx), 11)
     ctx.rule('C07.TOUCHED', lambda: rule_advance_touched(ctx) + c03.rule_touched(ctx, 'C07.TOUCHED'), 5)
     ctx.rule('C20', lambda: c20._run(ctx))
